@@ -1,14 +1,22 @@
 package checks
 
 import (
+	"crypto/ecdsa"
 	"fmt"
+	"strings"
 
 	"github.com/idena-network/idena-go/common"
 	"github.com/idena-network/idena-go/core/state"
 
 	"verif/sim/oracle"
+	"github.com/idena-network/idena-go/blockchain/types"
+	"github.com/idena-network/idena-go/core/state/snapshot"
+	"github.com/idena-network/idena-go/protocol"
+
 	"verif/sim/scen"
+	"verif/sim/seamrt"
 	"verif/sim/simdisk"
+	"verif/sim/simipfs"
 	"verif/sim/simnode"
 	"verif/sim/vfw"
 )
@@ -31,6 +39,8 @@ func init() {
 }
 
 type c09op struct {
+	key    *ecdsa.PrivateKey // identity of the node the operation ran on (nil = victim)
+	store  *simipfs.Store
 	kind   string
 	height uint64 // head height after the complete operation
 	pre    *simdisk.Disk
@@ -43,7 +53,86 @@ func nodeDigest(n *simnode.Node, addrs []common.Address) string {
 	return fmt.Sprintf("head=%x root=%x idroot=%x vc=%s", n.Chain.Head.Hash().Bytes()[:8], n.App.State.Root().Bytes()[:8], n.App.IdentityState.Root().Bytes()[:8], oracle.ValidatorsDigest(n.App.ValidatorsCache, addrs))
 }
 
+// c09FastSync lets a fresh node fast-sync from the twin (real fastSync steps, honest provider) while its disk
+// records every storage unit from the first header to the switch to the imported state.
+func c09FastSync(r *vfw.Run, s *scen.Scn, twin *simnode.Node, encs map[uint64][]byte) *c09op {
+	var manifest *snapshot.Manifest
+	twin.Do(func() { manifest = twin.Chain.ReadSnapshotManifest() })
+	if manifest == nil || manifest.Height <= 2 || manifest.Height > twin.Chain.Head.Height() {
+		return nil
+	}
+	jk := scen.NewIdent("joiner", 2)
+	J := simnode.New(s.W, 60, jk.Key, s.Cfg, simdisk.New(), s.Net.NewStore(), r.Dir)
+	J.Epoch = s.ScriptedEpoch
+	if err, pv, _ := J.Start(); err != nil || pv != nil {
+		return nil
+	}
+	defer J.Stop()
+	op := &c09op{key: jk.Key, store: J.Ipfs, kind: "fastsync", height: manifest.Height, low: 1, pre: J.Disk.Clone()}
+	J.Disk.Record = true
+	J.Disk.Journal = nil
+	fs := protocol.VerifNewFastSync(J.Chain, J.Ipfs, J.App, manifest, J.SM, J.Bus, J.Addr, J.KeyStore, J.SubMgr, J.Upg)
+	var ferr error
+	pv, st := J.Do(func() {
+		from, err := fs.PreConsuming(J.Chain.Head)
+		if err != nil {
+			ferr = err
+			return
+		}
+		for lo := from; lo <= manifest.Height && ferr == nil; lo += 9 {
+			hi := lo + 8
+			if hi > manifest.Height {
+				hi = manifest.Height
+			}
+			var wire []protocol.VerifRangeBlock
+			twin.W.As(twin.Ctx, func() {
+				for h := lo; h <= hi; h++ {
+					hd := twin.Chain.GetBlockHeaderByHeight(h)
+					wire = append(wire, protocol.VerifRangeBlock{Header: hd, Cert: twin.Chain.GetCertificate(hd.Hash()), IdentityDiff: twin.Chain.GetIdentityDiff(h)})
+				}
+			})
+			enc, _ := protocol.VerifEncodeBlockRange(1, wire)
+			_, dec, _, _ := protocol.VerifDecodeBlockRange(enc)
+			ferr = fs.Feed(dec)
+		}
+		if ferr == nil && fs.Deferred() == 0 {
+			ferr = fs.PostConsuming()
+		} else if ferr == nil {
+			ferr = fmt.Errorf("headers end without certificate")
+		}
+	})
+	J.Disk.Record = false
+	if pv != nil {
+		if vfw.IsAbort(pv) {
+			panic(pv)
+		}
+		r.Violate("C09:fast-sync-panicked", "%v\n%s", pv, st)
+	}
+	if ferr != nil {
+		r.Probe("fastsync_op_not_completed")
+		r.Note("fast sync for the crash operation did not complete: %v", ferr)
+		return nil
+	}
+	op.units = J.Disk.Journal
+	J.Disk.Journal = nil
+	op.after = "" // compared through the twin's digest at the manifest height
+	_ = encs
+	return op
+}
+
+func c09GoPolicy(site string) seamrt.GoPolicy {
+	switch {
+	case strings.HasPrefix(site, "core/state/manager.go"):
+		return seamrt.GoTask // snapshot download helper goroutines
+	case strings.HasPrefix(site, "blockchain/blockchain.go:") && len(site) >= len("blockchain/blockchain.go:")+4:
+		// (the only other go statement of the file, ipfsLoad in InitializeChain, sits in the first 999 lines)
+		return seamrt.GoInline // clean-up of the dropped databases after AtomicSwitchToPreliminary: its deletes are storage units too
+	}
+	return seamrt.GoNever
+}
+
 func runC09(r *vfw.Run) {
+	r.W.GoPolicy = c09GoPolicy
 	o := scen.Opts{MinIdent: 2, MaxIdent: 14, CeremonySoon: true}
 	if r.Tier == "thorough" {
 		o.MaxIdent = 30
@@ -75,8 +164,13 @@ func runC09(r *vfw.Run) {
 			break
 		}
 		encs[rr.Height] = rr.Enc
+		cert := l.BuildCert(twin, rr)
 		// twin first
 		l.InsertAll([]*simnode.Node{twin}, rr, "C09")
+		l.WriteCert([]*simnode.Node{twin}, rr, cert)
+		if rr.Flags.HasFlag(types.Snapshot) {
+			twin.Do(func() { twin.SM.VerifCreateSnapshot(rr.Height) })
+		}
 		twinDigest[rr.Height] = nodeDigest(twin, addrs)
 		interesting := rr.Flags != 0 || rr.Txs > 0 || rr.Empty
 		record := len(ops) < wantOps && i >= 2 && i < rounds-3 && (interesting && r.Choose("op.pick", 2) == 0 || r.Choose("op.pickplain", 8) == 0)
@@ -132,8 +226,13 @@ func runC09(r *vfw.Run) {
 	finalDigest := twinDigest[final]
 	scnFp := r.W.Fingerprint()
 
+	var curOp *c09op
 	restart := func(disk *simdisk.Disk, what string) *simnode.Node {
-		n := simnode.New(s.W, 100, victim.Key, s.Cfg, disk, victim.Ipfs, r.Dir)
+		key, store := victim.Key, victim.Ipfs
+		if curOp != nil && curOp.key != nil {
+			key, store = curOp.key, curOp.store
+		}
+		n := simnode.New(s.W, 100, key, s.Cfg, disk, store, r.Dir)
 		n.Epoch = s.ScriptedEpoch
 		n.Ctx.MapSeed = victim.Ctx.MapSeed + 17
 		err, pv, st := n.Start()
@@ -185,7 +284,13 @@ func runC09(r *vfw.Run) {
 			r.Violate("C09:diverged-from-twin-after-catchup", "%s: at h=%d restarted node %s, twin %s", what, final, got, finalDigest)
 		}
 	}
+	// ---- fast sync of a late joiner as one more recorded operation ----
+	if op := c09FastSync(r, s, twin, encs); op != nil {
+		ops = append(ops, op)
+		r.Probe("op:" + op.kind)
+	}
 	for oi, op := range ops {
+		curOp = op
 		U := len(op.units)
 		for k := 0; k <= U; k++ {
 			disk := op.pre.Clone()
@@ -197,7 +302,7 @@ func runC09(r *vfw.Run) {
 			n := restart(disk, what)
 			rec := disk.Journal
 			disk.Record = false
-			if k == U {
+			if k == U && op.after != "" {
 				if got := nodeDigest(n, addrs); got != op.after {
 					n.Stop()
 					r.Violate("C09:clean-restart-changed-observable-state", "%s: running node %s, restarted %s", what, op.after, got)
